@@ -39,7 +39,8 @@ RULE = ("programs: one executor (task returns an object / returns None / raises)
         "ALL interleavings of the listed small programs are enumerated on the real code (every schedule, or every distinct shared state "
         "with partial-order pruning), plus seeded random schedules of larger programs; model and implementation compared after EVERY step "
         "(label executed, event/data/exception/lock owner/completed/callback/extra) and on the notification log, the logged errors, how "
-        "execute() ended and what each observer got. Non-trivial: at least one registrar or observer; distinct by (program, schedule).")
+        "execute() ended and what each observer got. Non-trivial: at least one registrar or observer; distinct by (program, schedule)."
+        ' Added after the seeded rounds: `chain` stream (oracle only): callbacks that register a follow-up callback on their own future, before / after completion, on a bare future and through a one-worker pool; returned values that are exception instances in half of the programs.')
 EXHAUSTIVE = ("every interleaving, at model granularity, of: executor x one registrar (3 bodies x 3 callback kinds); executor x one observer "
               "(3 x 3); and every reachable shared state of executor + two registrars / registrar + observer for the listed programs")
 MANIFEST_ENTRY = {
